@@ -26,6 +26,7 @@ VIAS = {"none": None, "P1": ("http", ("p1.test", 3128)), "P2": ("https", ("p2.te
 NOVIA = {"s": "none", "a": "none"}
 
 _ENV = None
+_SCRATCH: Path | None = None
 
 
 def _env():
@@ -33,7 +34,9 @@ def _env():
     if _ENV is None or _ENV[0] != os.getpid():
         from vf import proxysim
 
-        d = Path(tempfile.mkdtemp(prefix="c08-env-", dir="/verif/.scratch"))
+        base = _SCRATCH or Path("/verif/.scratch")  # ctx.scratch (removed at exit); workers are forked after setup()
+        base.mkdir(parents=True, exist_ok=True)
+        d = Path(tempfile.mkdtemp(prefix="c08-env-", dir=str(base)))
         _ENV = (os.getpid(), proxysim.SimEnv(d), d)
     return _ENV[1]
 
@@ -332,23 +335,23 @@ OUT_ALL = frozenset({"ok", "tcp_fail", "tls0_fail", "refused", "tls1_fail"})
 CONFIGS = {
     # regular proxy, HTTP/1 client, addon chooses the upstream proxy per request
     "regular": dict(cfg={"mode": "regular", "client": "h1"}, upstream=False, h2=False, ctx=0, h2_addrs=(),
-                    dests=(D("a"), D("a", True), D("a", False, "P1"), D("a", True, "P2"), D("p1")),
+                    dests=(D("a"), D("a", True), D("a", False, "P1"), D("p1")),
                     dests_big=(D("a"), D("a", True), D("a", False, "P1"), D("a", True, "P2"), D("p1"), D("b"),
                                D("a", False, "none", "udp"), D("a", True, "P1"), D("p2", True))),
     # upstream mode (default proxy P1), addon may change the proxy or go direct
     "upstream": dict(cfg={"mode": "upstream", "client": "h1"}, upstream=True, h2=False, ctx=0, h2_addrs=(),
-                     dests=(D("a", False, "P1"), D("a", True, "P1"), D("a"), D("p1"), D("b", False, "P1")),
+                     dests=(D("a", False, "P1"), D("a", True, "P1"), D("a"), D("p1")),
                      dests_big=(D("a", False, "P1"), D("a", True, "P1"), D("a"), D("p1"), D("b", False, "P1"),
                                 D("a", False, "P2"), D("a", True), D("p2", True))),
     # transparent mode, eager: the context connection (to a) is already open
     "eager": dict(cfg={"mode": "transparent", "client": "h1", "eager": True}, upstream=False, h2=False, ctx=1,
                   h2_addrs=(),
-                  dests=(D("a"), D("b"), D("a", True), D("a", False, "P1")),
+                  dests=(D("a"), D("b"), D("a", False, "P1")),
                   dests_big=(D("a"), D("b"), D("a", True), D("a", False, "P1"), D("a", False, "none", "udp"), D("p1"))),
     # HTTP/2 client (TLS, transparent mode): concurrent requests; servers at b speak h2
     "h2": dict(cfg={"mode": "transparent", "client": "h2", "h2_addrs": ["b"]}, upstream=False, h2=True, ctx=0,
                h2_addrs=("b",),
-               dests=(D("a"), D("a", True), D("b", True), D("b", True, "P1")),
+               dests=(D("a"), D("b", True), D("b", True, "P1")),
                dests_big=(D("a"), D("a", True), D("b", True), D("b", True, "P1"), D("a", True, "P2"), D("b"))),
 }
 
@@ -376,6 +379,10 @@ class Check(core.PropertyCheck):
     )
 
     # --- model -------------------------------------------------------------------------------------
+    def setup(self, ctx):
+        global _SCRATCH
+        _SCRATCH = ctx.scratch
+
     def mon_constants(self, tier):
         return {}
 
@@ -396,10 +403,10 @@ class Check(core.PropertyCheck):
 
     def model_runs(self, ctx):
         # exhaustive + dumped: every history of 2 requests in every configuration (scenario source: edge cover)
-        runs = [ctx.model_check(self.MODEL, self._consts(max_req=2), dump=True)]
+        runs = [ctx.model_check(self.MODEL, self._consts(max_req=2, big=not ctx.quick), dump=True)]
         if not ctx.quick:
-            # exhaustive, statistics only: 3 requests, the larger destination sets
-            runs.append(ctx.model_check(self.MODEL, self._consts(max_req=3), dump=False, tag="_3", timeout=3000))
+            # exhaustive, statistics only: 3 requests
+            runs.append(ctx.model_check(self.MODEL, self._consts(max_req=3), dump=False, tag="_3", timeout=3000, workers=4))
         return runs
 
     # --- scenarios ---------------------------------------------------------------------------------
@@ -434,7 +441,7 @@ class Check(core.PropertyCheck):
         # every transition of the graph at least once (long random tails keep the number of behaviours down)
         behs = g.edge_cover(ctx.rng, max_len=40, tail=12 if ctx.quick else 6)
         behs += g.random_walks(ctx.rng, 100 if ctx.quick else 2000, 30)
-        yield from self._from_behaviours(behs, rng, False, "model")
+        yield from self._from_behaviours(behs, rng, not ctx.quick, "model")
         # deeper behaviours of the same model: more requests, the larger destination sets (tlc -simulate)
         behs2, _r = ctx.simulate(self.MODEL, self._consts(big=True, max_req=5, max_close=2, max_set=2),
                                  num=250 if ctx.quick else 6000, depth=22 if ctx.quick else 36)
